@@ -50,6 +50,8 @@ def titleFn : V3.M3 → String
   | .MI => "ModifiedIntegrityImpact" | .MA => "ModifiedAvailabilityImpact"
 
 /-- language code of a tag string as the harness passes it -/
-def langOf (tag : String) : Nat := if tag == "en" then 0 else if tag == "ja" then 1 else 2
+def langOf (tag : String) : Nat :=
+  if tag == "en" || tag == "-" then 0      -- "-": no language option given, the default is English
+  else if tag == "ja" then 1 else 2
 
 end CvssVerif.Names
